@@ -357,6 +357,25 @@ func singleFieldMutations(f []fixscan.Field) []c09Mut {
 	return out
 }
 
+// xmlLenSweep: XMLDataLen/XMLData inserted after every field, with every declared length from 0 up to past the end
+// of the message (the data ending exactly at the last field, at the CheckSum, at the final delimiter, one byte beyond).
+func xmlLenSweep(f []fixscan.Field) []c09Mut {
+	var out []c09Mut
+	cp := func() []fixscan.Field { return append([]fixscan.Field{}, f...) }
+	for i := 1; i < len(f); i++ {
+		rest := 16
+		for _, x := range f[i+1:] {
+			rest += len(strconv.Itoa(x.Tag)) + len(x.Value) + 2
+		}
+		for n := 0; n <= rest; n++ {
+			g := cp()
+			g = append(g[:i+1], append([]fixscan.Field{{212, strconv.Itoa(n)}, {213, "<x>"}}, g[i+1:]...)...)
+			out = append(out, c09Mut{fields: g, desc: fmt.Sprintf("xml#%d(len %d)", i, n)})
+		}
+	}
+	return out
+}
+
 func buildMut(m c09Mut) []byte {
 	if m.raw != nil {
 		return m.raw
@@ -517,6 +536,18 @@ func c09ForEach(tier string, shard, shards int, from int64, f func(idx int64, si
 				}
 				emit("session:"+c09States[sti].name, in, desc, func(d *c09Dicts) string { return sinkSession(in, sti) })
 			}
+		}
+	}
+	// (b0) XMLDataLen sweep: parsed (three dictionary variants) and fed to a logged-on session
+	for si, seed := range seeds {
+		if quick && si%3 != 0 {
+			continue
+		}
+		for _, m := range xmlLenSweep(seed) {
+			in := buildMut(m)
+			desc := fmt.Sprintf("seed%d:%s", si, m.desc)
+			emit("parse", in, desc, func(d *c09Dicts) string { sinkParse(d, in, false); return "" })
+			emit("session:"+c09States[0].name, in, desc, func(d *c09Dicts) string { return sinkSession(in, 0) })
 		}
 	}
 	// (b1) the sequence-field grid: every administrative/application type with every small MsgSeqNum, PossDup,
